@@ -338,12 +338,23 @@ def refusal_family(pvl):
            ("q", Q(5, "a\xa0b c"))]),
         M([("t", "alpha\x1ebeta gamma\x1fdelta " * 6), ("u", ["one\x1ctwo three"] * 9)]),
         M([("t", "x\ue000y z \ue001 " * 12)]),
+        # ... whose highest character is exactly the first / the last private
+        # use character, or the one before
+        M([("k", ["alpha\ue000beta"] + ["item"] * 25)]),
+        M([("k", ["item"] * 25 + ["it's", "\ue000\ue000"])]),
+        M([("k", ["alpha\ud7ffbeta"] + ["item"] * 25), ("j", ["\uf8ff x"] * 20)]),
         # strings one or another encoder has no notation for, next to accepted
         # ones (the same refused string comes round again in a history)
         M([("a", 1), ("note", 'say "cheese"\nplease')]),
         M([("a", "it's"), ("note", 'say "cheese"')]),
         M([("c", 3), ("o", col.PVLObject([("remark", [1, 'say "x"\nplease'])]))]),
         M([("a", 'both \' and "'), ("b", "N/A")]),
+        # names ODL / PDS3 refuse, whose upper-cased form is a name they
+        # write, next to that name
+        M([("sample_bits", 8), ("ok", 1)]),
+        M([("\u017fample_bits", 8), ("ok", 1)]),
+        M([("lines", 3), ("g", col.PVLGroup([("l\u0131nes", 4)]))]),
+        M([("^lines", 3), ("stra\u00dfe", 1)]), M([("strasse", 1)]),
     ]
 
 
